@@ -21,6 +21,7 @@ CONFIG = {
              "ordered pairs of documents with <= 2 nodes (43 documents) x 8 (thorough: 40) option mixes drawn (seeded) "
              "from the 3x4x5x3 = 180 hashes/arrays/aoh/sets combinations plus the all-defaults mix; pairs of the 594 "
              "documents with 3 nodes and the 6808 with 4 nodes sampled under random mixes; a stream of "
+             "two or three right-hand Arrays-of-Hashes of EQUAL content under sibling keys with a [keys] entry for exactly one, merged deep; "
              "larger random documents with per-path [rules], [keys] identity keys and INI [defaults]; a malformed "
              "stream (option / rule texts that are no member of the enum).  non-trivial = both documents are "
              "containers; distinct = distinct (lhs, rhs, options, rules) tuple.  Equality used by the reference policy: "
@@ -965,6 +966,32 @@ def shared_sibling_case(rng):
     return (lt, rt, opts, rules, keys, None)
 
 
+def equal_aoh_keys_case(rng):
+    """Two or three right-hand Arrays-of-Hashes of EQUAL content under sibling keys, a [keys] entry naming exactly
+    one of them, merged DEEP: the named one is identified by the entry, every other one by its own first key (seed
+    C05_4: the entry leaked to the equal-content Arrays through an == on the parent)."""
+    k1, k2 = rng.sample(["n", "id", "a"], 2)       # k1: first key of the records (the default identity); k2: the entry
+    v = rng.choice(["1", "x", "7"])
+    a, b = rng.sample(["A", "B", "3", "4"], 2)
+    rrec = "{%s: %s, %s: %s, v: 1}" % (k1, v, k2, a)
+    lrec = "{%s: %s, %s: %s, v: 0}" % (k1, v, k2, b)
+    more = rng.choice(["", "", ", {%s: 9, %s: 9}" % (k1, k2)])
+    names = rng.sample(["x", "y", "z"], rng.choice([2, 2, 3]))
+    named = rng.choice(names)
+    lt = "{%s}" % ", ".join("%s: [%s]" % (n, lrec) for n in names)
+    rt = "{%s}" % ", ".join("%s: [%s%s]" % (n, rrec, more) for n in names)
+    base = ""
+    if rng.random() < 0.4:
+        lt, rt, base = "{p: %s, q: 1}" % lt, "{p: %s}" % rt, "/p"
+    keys = {base + "/" + named + rng.choice(["", "", "[0]"]): k2}
+    opts = {"aoh": "deep"}
+    rules = None
+    if rng.random() < 0.3:
+        opts = {}
+        rules = {base + "/" + n: "deep" for n in names}
+    return (lt, rt, opts, rules, keys, None)
+
+
 def chunks(tier, seed):
     rng = random.Random(seed)
     size = 400
@@ -1007,6 +1034,10 @@ def chunks(tier, seed):
     nshared = 3000 if tier == "quick" else 40000
     for _ in range(nshared):
         c = emit(shared_sibling_case(rng))
+        if c:
+            yield c
+    for _ in range(600 if tier == "quick" else 6000):
+        c = emit(equal_aoh_keys_case(rng))
         if c:
             yield c
     nrand = 12000 if tier == "quick" else 150000
